@@ -76,8 +76,8 @@ type Contract struct {
 	Requires   []*Clause
 	Ensures    []*Clause
 	After      map[string][]*Clause // callee key -> intermediate assertions proved right after each call of it, then assumed
-	Preserves  []*Clause // callback invariants: required and ensured by the function; carried across a callee that invokes it (frame_of_param)
-	Assigns    []string // raw designators; nil = not declared
+	Preserves  []*Clause            // callback invariants: required and ensured by the function; carried across a callee that invokes it (frame_of_param)
+	Assigns    []string             // raw designators; nil = not declared
 	HasAssigns bool
 	Loops      map[int]*LoopSpec
 	Flags      map[string]string // trusted, pure, noeffect, sequential, may_panic, nonblocking, yields, safety ...
@@ -113,8 +113,8 @@ type GhostDecl struct {
 	Name     string
 	Params   []string // textual types
 	Result   string
-	Monotone bool // latch: once true stays true (rely and guarantee)
-	Counter  bool // integer ghost that only grows
+	Monotone bool   // latch: once true stays true (rely and guarantee)
+	Counter  bool   // integer ghost that only grows
 	Kind     string // "ghost" (heap dependent) or "pure" (uninterpreted function)
 }
 
